@@ -18,6 +18,10 @@ CLAIMED = {
          "Machine-checked proof for all schedules of the model; the safety half (no lost wake-up, lock only held at wait entry) is an invariant, the liveness half is given as bounded-progress lemmas under an assumed fair scheduler.",
          "Trusted: Lean kernel; detsched (mutex/condvar semantics, a step = interval between synchronisation calls); sequential consistency of plain loads/stores; scheduler fairness for 'eventually'; one writer thread, one thread per reader handle; the extractor (clang AST walk).",
          "DESIGN.md section 5, C03"),
+ "C05": ("lean-channel", "Lean 4 theorems: frame-size arithmetic (multiple of 8, minimal) over constants and rounding expressions translated from components.c/source.c/filter.c on every run; channel invariants by induction over histories (all cursors multiples of 8; every reader position and every region end is a write boundary); tie: generated Lean file + differential run of the real bytes_of_image and verbatim rounding expressions + channel correspondence in frame mode with an alignment/whole-frame oracle",
+         "Machine-checked proof for all shapes, sample types, capacities, wrap positions and histories whose writes are frames and whose readers consume whole frames; the translator regenerates the size formulas from the source on every run.",
+         "Trusted: Lean kernel; the regex-based translator of the two one-line rounding expressions (fails closed); malloc alignment >= 8 of the ring; the client consumes whole frames (API obligation); pipeline-level packets are re-checked by the runtime checks.",
+         "DESIGN.md section 5, C05"),
  "C11": ("lean-hal", "Lean 4 theorems: protocol automaton accepts the event log (driver calls and device-memory reads/writes) of every HAL call sequence under every driver response oracle, by invariant over the call list; tie: differential correspondence of real camera.c/storage.c/driver.c against a scripted mock driver whose close frees the device (ASan), exhaustive length-5 call scripts + random",
          "Machine-checked proof over a transcription of the HAL wrappers for all call histories and all driver answers; correspondence on status, reported state and driver call log on every run.",
          "Trusted: Lean kernel; one handle at a time; complete vtable; describe reports the requested kind; memory events after release observable on the real code only through ASan / pattern fill.",
